@@ -1,13 +1,21 @@
 From C04 Require Import Model Spec.
 Open Scope N_scope.
-Definition case := (list docarg * list arg * outcome)%type.
+(* a case: the lambda list, the argument vector, the observed outcome, the parameters whose default form reports
+   its own evaluation (it pushes the parameter's index on a global list), and the evaluations observed, in order *)
+Definition case := (list docarg * list arg * outcome * list N * list N)%type.
+Definition traced_only (traced : list N) (es : list N) : list N := filter (fun x => existsb (N.eqb x) traced) es.
 Definition check_case (c : case) : N :=
-  let '(ds, args, obs) := c in
+  let '(ds, args, obs, traced, otr) := c in
   let m := bind_M ds args in
+  let em := traced_only traced (evals_M ds args) in
   let dom := in_domain ds args in
-  let s_obs := match spec_of ds args with Some s => outcome_eqv s obs | None => true end in
-  let s_m := match spec_of ds args with Some s => outcome_eqv s m | None => true end in
-  if outcome_eqb m obs then (if dom && negb s_m then 3 else 0)
+  let es := match parse_ll ds with Some l => Some (traced_only traced (evals_S l args)) | None => None end in
+  (* does the observation / the model meet the specification: the outcome AND the default forms evaluated *)
+  let s_obs := match spec_of ds args with Some s => outcome_eqv s obs | None => true end &&
+               match es with Some e => list_eqb N.eqb e otr | None => true end in
+  let s_m := match spec_of ds args with Some s => outcome_eqv s m | None => true end &&
+             match es with Some e => list_eqb N.eqb e em | None => true end in
+  if outcome_eqb m obs && list_eqb N.eqb em otr then (if dom && negb s_m then 3 else 0)
   else if (dom || s_m) && negb s_obs then 2 else 1.
 Fixpoint check_all_from (i : N) (cs : list case) : list (N * N) :=
   match cs with
@@ -15,4 +23,9 @@ Fixpoint check_all_from (i : N) (cs : list case) : list (N * N) :=
   | c :: cs' => let r := check_case c in (if N.eqb r 0 then [] else [(i, r)]) ++ check_all_from (N.succ i) cs'
   end.
 Definition check_all := check_all_from 0.
-Definition guard_count (cs : list case) : N := N.of_nat (length (filter (fun c => let '(ds, args, _) := c in in_domain ds args) cs)).
+Definition guard_count (cs : list case) : N := N.of_nat (length (filter (fun c => let '(ds, args, _, _, _) := c in in_domain ds args) cs)).
+(* cases in which some traced default form had to stay unevaluated because its parameter got an argument *)
+Definition supplied_count (cs : list case) : N :=
+  N.of_nat (length (filter (fun c => let '(ds, args, _, traced, _) := c in
+                                     negb (Nat.eqb (length (traced_only traced (evals_M ds args))) (length traced)) &&
+                                     match bind_M ds args with OBound _ => true | OErr _ => false end) cs)).
